@@ -1,5 +1,5 @@
 """C14  The BK charset is a bijection consistent with ASCII and KOI-8."""
-from ..common import require, concretize
+from ..common import require, concretize, notrace
 from ..obligations import Ob
 from ..symasm import assemble
 
@@ -13,8 +13,10 @@ META = {
                  "code point; z3 enumerates the table classes and decides the complement class in one path",
     "bounds": "all 256 bytes; code points: quick 0..0xFFFF, thorough 0..0x10FFFF (surrogates excluded); two-character strings with one symbolic "
               "character beside a fixed encodable or unencodable neighbour",
-    "outside": ["strings longer than two characters (position arithmetic of the error is only decided for the two-character family)"],
-    "structure": "byte round trip; code point classes; 4 neighbour layouts; .ascii and 'c surfacing",
+    "outside": ["strings longer than two characters (position arithmetic of the error is only decided for the two-character family)",
+                "what the lexer does to a literal character before the codec sees it is not reachable symbolically (the character is injected after "
+                "the parse): covered by the concrete side check 'surface/text-sweep' (every BMP character as literal source text)"],
+    "structure": "byte round trip; code point classes; 4 neighbour layouts; .ascii, 'c and tape-name surfacing; a string after the same letters in the other case",
     "stubs": [],
 }
 
@@ -128,6 +130,10 @@ def h_surface(params, vals, ctx):
     c = concretize(c)
     ch = chr(c)
     vals = {**vals, "S_1": ch}
+    if params["kind"] == "ascii-after-other-case":
+        return _after_other_case(ch, vals, ctx, bk)
+    if params["kind"] == "tape-name":
+        return _tape_name(ch, vals, ctx, bk)
     text = {"ascii": '.ascii "a{S_1}"\n', "char": ".word '{S_1}\n"}[params["kind"]]
     o = assemble([("a.mac", text)], vals, route=ctx.route, charset="bk")
     ctx.observe_outcome(o)
@@ -143,6 +149,72 @@ def h_surface(params, vals, ctx):
     return bytes(o.code) == bytes([byte, 0])
 
 
+def _enc(bk, ch):
+    hits = [i for i, e in enumerate(bk.DECODING_TABLE) if ch in e]
+    return hits[0] if hits else None
+
+
+def _after_other_case(ch, vals, ctx, bk):
+    """The bytes of a string do not depend on the strings assembled before it (here: the same letters in the other case)."""
+    other = ch.swapcase() if len(ch.swapcase()) == 1 else ch
+    require(_enc(bk, ch) is not None and _enc(bk, other) is not None and other not in "\"\\/'")
+    vals = {**vals, "S_2": other}
+    o = assemble([("a.mac", '.ascii "{S_2}x"\n.ascii "{S_1}x"\n.ascii "{S_2}X" "{S_1}X"\n.asciz "{S_1}"\n')], vals, route=ctx.route, charset="bk")
+    ctx.observe_outcome(o)
+    ctx.reach(o.status == "ok")
+    if o.status != "ok" or o.errors:
+        return False
+    a, b = _enc(bk, ch), _enc(bk, other)
+    return bytes(o.code) == bytes([b, 120, a, 120, b, 88, a, 88, a, 0])
+
+
+def _tape_name(ch, vals, ctx, bk):
+    """An unencodable character in an explicit tape name is refused like anywhere else."""
+    o = assemble([("/w/a.mac", 'make_wav "o.wav", "n{S_1}"\n.word 1\n')], vals, route=ctx.route, charset="bk")
+    ctx.observe_outcome(o)
+    ctx.reach(o.status in ("ok", "failed"))
+    code = _enc(bk, ch)
+    if code is None:
+        return o.status == "failed" and "invalid-character" in o.error_ids
+    if o.status != "ok" or o.errors or len(o.comp.emitted_files) != 1:
+        return False
+    return bytes(o.comp.emitted_files[0][4]) == bytes([110, code]) + b" " * 14
+
+
+def h_text_sweep(params, vals, ctx):
+    """Concrete side check (the lexer works on concrete text): every BMP character written literally in '.ascii' and in a character
+    literal gives the table's byte or invalid-character -- in particular nothing is folded, normalised or transliterated on the way in."""
+    bk = _codec()
+    k = vals["K"]
+    require(0 <= k < 16)
+    k = concretize(k)
+    table = {}
+    for i, e in enumerate(bk.DECODING_TABLE):
+        for alt in e:
+            table[alt] = i
+    with notrace():
+        for cp in range(k * 0x1000, (k + 1) * 0x1000):
+            if cp < 0x20 or 0xD800 <= cp < 0xE000 or cp == 0x7F:
+                continue
+            ch = chr(cp)
+            if ch in "\"\\/'\n\r" or ch.isspace():
+                continue
+            for kind, text in (("ascii", '.ascii "a' + ch + '"\n'), ("char", ".word '" + ch + "\n")):
+                o = assemble([("a.mac", text)], {}, route="text", charset="bk")
+                want = table.get(ch)
+                if want is None:
+                    if not (o.status == "failed" and "invalid-character" in o.error_ids):
+                        ctx.observe(cp, kind, o.status)
+                        return False
+                else:
+                    exp = bytes([97, want]) if kind == "ascii" else bytes([want, 0])
+                    if o.status != "ok" or bytes(o.code) != exp:
+                        ctx.observe(cp, kind, o.status)
+                        return False
+    ctx.reach(True)
+    return True
+
+
 def obligations(tier, seed):
     obs = [
         Ob(oid="byte/roundtrip", harness=P + "h_byte", params={}, vars={"X": "int"}, timeout=600, pre="0 <= X < 256"),
@@ -156,6 +228,12 @@ def obligations(tier, seed):
             obs.append(Ob(oid=f"pair/{nm}/sym-at-{pos}", harness=P + "h_pair", params={"fixed": fixed, "pos": pos, "windows": None if tier == "thorough" else win},
                           vars={"C": "int"}, timeout=900, per_path=120))
     w2 = [(0x20, 0x100), (0x400, 0x460), (0x2190, 0x2194), (0x2500, 0x25A0), (0x2660, 0x2668)]
+    obs.append(Ob(oid="surface/ascii-after-other-case", harness=P + "h_surface", params={"kind": "ascii-after-other-case", "windows": [(0x41, 0x7B), (0x410, 0x450)]},
+                  vars={"S_1": "str"}, timeout=900))
+    obs.append(Ob(oid="surface/tape-name", harness=P + "h_surface", params={"kind": "tape-name", "windows": [(0x20, 0x100), (0x400, 0x460), (0x2500, 0x2510)]},
+                  vars={"S_1": "str"}, timeout=900))
+    obs.append(Ob(oid="surface/text-sweep", harness=P + "h_text_sweep", params={}, vars={"K": "int"}, timeout=1500, per_path=300,
+                  note="concrete side check: all BMP characters as literal source text, 16 blocks of 4096"))
     for kind in ("ascii", "char"):
         obs.append(Ob(oid=f"surface/{kind}", harness=P + "h_surface", params={"kind": kind, "windows": w2}, vars={"S_1": "str"}, timeout=900))
     return obs
